@@ -116,7 +116,9 @@ SelfAlign == (Complete /\ TailTokens(s) = {} /\ ~DontCare(s)) => SelfAlignOK
 DelimitedOK == /\ \A r \in T4 : (r[1] = 1 \/ ~Run4(s[r[1] - 1])) /\ (r[2] = Len(s) \/ ~Run4(s[r[2] + 1]))
                /\ \A r \in Plain6Tokens(s) : (r[1] = 1 \/ ~Run6(s[r[1] - 1])) /\ (r[2] = Len(s) \/ ~Run6(s[r[2] + 1]))
 Delimited == Complete => DelimitedOK
-MaskOK == Mode = "mask" => (MaskTheorem(8) /\ (meta.mask <=> meta.bits \in MaskSet(32)))
+\* the bit-twiddling-free definition of "mask shaped" agrees with the written-out set (all 256 values at width 8: checked once)
+ASSUME MaskTheorem(8)
+MaskOK == Mode = "mask" => (meta.mask <=> meta.bits \in MaskSet(32))
 Emit == meta.st # "done" \/ Serialize(ToJson(IF Mode = "mask" THEN [bits |-> meta.bits, mask |-> meta.mask] ELSE [s |-> s, n4 |-> Cardinality(T4), n6 |-> Cardinality(T6), dc |-> DontCare(s)]) \o "\n",
                   IOEnv.OUT_FILE, [format |-> "TXT", charset |-> "UTF-8",
                                    openOptions |-> <<"WRITE", "CREATE", "APPEND">>]).exitValue = 0
